@@ -66,6 +66,12 @@ class Result:
         self.extra = {}
 
     # -- recording -------------------------------------------------------
+    def sample_now(self, every):
+        """should the caller write this case out as an evidence sample?  the first case of every shard and every `every`-th one"""
+        if len(self.samples) >= 3:
+            return False
+        return not self.samples or (self.evaluations % every) == (every // 2)
+
     def case(self, case_repr=None, nontrivial_key=None, outcome_key=None):
         self.evaluations += 1
         if nontrivial_key is not None:
